@@ -380,6 +380,28 @@ impl<'a, T: Elem + SatisfyTraits<Tr>, M: MemCaps, Tr: ?Sized + TrCaps> Cx<'a, T,
                     self.out.unsupported = true;
                 }
             }
+            Op::IterScript { v, how, script, clone_at } => self.exec_iter_script(*v, *how, script, *clone_at),
+            Op::CloneEmptyIn { v, target } => match target {
+                #[cfg(feature = "alloc")]
+                Target::Heap => self.clone_empty_in_with::<any_vec::mem::Heap>(*v),
+                #[cfg(not(feature = "alloc"))]
+                Target::Heap => self.out.unsupported = true,
+                Target::Guard => self.clone_empty_in_with::<crate::guardmem::GuardMem>(*v),
+                Target::Stack => {
+                    if std::mem::align_of::<T>() > 8 {
+                        self.out.unsupported = true
+                    } else {
+                        self.clone_empty_in_with::<any_vec::mem::Stack<4096>>(*v)
+                    }
+                }
+                Target::StackN => {
+                    if std::mem::align_of::<T>() > 8 {
+                        self.out.unsupported = true
+                    } else {
+                        self.clone_empty_in_with::<any_vec::mem::StackN<16, 4096>>(*v)
+                    }
+                }
+            },
             Op::Push { v, src } => self.feed(*v, None, src),
             Op::Insert { v, at, src } => self.feed(*v, Some(*at), src),
             Op::Pop { v, sink } => match self.vec(*v).pop() {
@@ -476,6 +498,138 @@ impl<'a, T: Elem + SatisfyTraits<Tr>, M: MemCaps, Tr: ?Sized + TrCaps> Cx<'a, T,
                 if !supported {
                     self.out.unsupported = true;
                 }
+            }
+        }
+    }
+
+    fn clone_empty_in_with<M2: MemCaps>(&mut self, v: usize) {
+        let src = self.vec(v);
+        let n = src.len();
+        if let Some(c) = M2::fixed_cap(size_of::<T>()) {
+            if n > c {
+                self.out.unsupported = true;
+                return;
+            }
+        }
+        let mut tmp: AnyVec<Tr, M2> = src.clone_empty_in(M2::builder());
+        if !tmp.is_empty() || tmp.len() != 0 {
+            self.note(format!("clone_empty_in: result has len {}", tmp.len()));
+        }
+        if tmp.element_typeid() != TypeId::of::<T>() || tmp.element_layout() != std::alloc::Layout::new::<T>() {
+            self.note("clone_empty_in: result has another element type / layout".into());
+        }
+        for _ in 0..n {
+            let h = src.remove(0);
+            tmp.push(h);
+        }
+        match tmp.downcast_ref::<T>() {
+            Some(tv) => {
+                for e in tv.as_slice() {
+                    self.val(probe_val(e));
+                }
+            }
+            None => self.note("clone_empty_in: downcast_ref::<T>() of the result is None".into()),
+        }
+        if let Some(c) = Tr::clone_vec(&tmp) {
+            match c.downcast_ref::<T>() {
+                Some(tv) => {
+                    for e in tv.as_slice() {
+                        self.val(probe_val(e));
+                    }
+                }
+                None => self.note("clone of clone_empty_in result: downcast_ref::<T>() is None".into()),
+            }
+            drop(c);
+        }
+        for _ in 0..n {
+            let h = tmp.remove(0);
+            src.push(h);
+        }
+        drop(tmp);
+    }
+
+    fn exec_iter_script(&mut self, v: usize, how: IterHow, script: &[bool], clone_at: Option<usize>) {
+        let bound = self.vec(v).len().saturating_add(4);
+        macro_rules! steps {
+            ($it:ident, $probe:expr, $n:ident, $pre:block) => {{
+                for ($n, back) in script.iter().enumerate() {
+                    $pre
+                    let l = $it.len();
+                    self.len_report(l);
+                    if $it.size_hint() != (l, Some(l)) {
+                        self.note(format!("size_hint()={:?} but len()={}", $it.size_hint(), l));
+                    }
+                    let item = if *back { $it.next_back() } else { $it.next() };
+                    match item {
+                        None => self.val(Val::None),
+                        Some(e) => {
+                            let x = $probe(e);
+                            self.val(x)
+                        }
+                    }
+                }
+                let l = $it.len();
+                self.len_report(l);
+            }};
+        }
+        macro_rules! drain_clone {
+            ($cl:ident, $probe:expr) => {{
+                if let Some(mut c) = $cl {
+                    let l = c.len();
+                    self.len_report(l);
+                    let mut k = 0;
+                    while let Some(e) = c.next() {
+                        let x = $probe(e);
+                        self.val(x);
+                        k += 1;
+                        if k > bound {
+                            self.note("cloned iterator yields more items than the vector holds".into());
+                            break;
+                        }
+                    }
+                }
+            }};
+        }
+        let pref = |e: any_vec::element::ElementRef<Tr, M>| e.downcast_ref::<T>().map(probe_val).unwrap_or(Val::Garbage(u64::MAX));
+        let pmut = |mut e: any_vec::element::ElementMut<Tr, M>| e.downcast_mut::<T>().map(|r| probe_val(&*r)).unwrap_or(Val::Garbage(u64::MAX));
+        match how {
+            IterHow::Iter | IterHow::IntoIterRef => {
+                let mut it = if how == IterHow::Iter { self.vec(v).iter() } else { (&*self.vec(v)).into_iter() };
+                let mut cl = None;
+                steps!(it, pref, n, {
+                    if clone_at == Some(n) {
+                        cl = Some(it.clone());
+                    }
+                });
+                drain_clone!(cl, pref);
+            }
+            IterHow::IterMut | IterHow::IntoIterMut => {
+                if clone_at.is_some() {
+                    self.out.unsupported = true;
+                    return;
+                }
+                let mut it = if how == IterHow::IterMut { self.vec(v).iter_mut() } else { self.vec(v).into_iter() };
+                steps!(it, pmut, _n, {});
+            }
+            IterHow::TIter | IterHow::TIntoIterRef => {
+                let tv = self.vec(v).downcast_ref::<T>().expect("typed view of the right type");
+                let mut it = if how == IterHow::TIter { tv.iter() } else { tv.into_iter() };
+                let mut cl = None;
+                steps!(it, |e: &T| probe_val(e), n, {
+                    if clone_at == Some(n) {
+                        cl = Some(it.clone());
+                    }
+                });
+                drain_clone!(cl, |e: &T| probe_val(e));
+            }
+            IterHow::TIterMut | IterHow::TIntoIterMut => {
+                if clone_at.is_some() {
+                    self.out.unsupported = true;
+                    return;
+                }
+                let mut tv = self.vec(v).downcast_mut::<T>().expect("typed view of the right type");
+                let mut it = if how == IterHow::TIterMut { tv.iter_mut() } else { tv.into_iter() };
+                steps!(it, |e: &mut T| probe_val(&*e), _n, {});
             }
         }
     }
